@@ -19,23 +19,37 @@ CONSTANT TraceFile
 Traces == ndJsonDeserialize(TraceFile)
 
 VARIABLES t,   \* trace index
-          r,   \* request index within the trace
-          l    \* next flow entry of the request to consume
-tvars == <<vars, t, r, l>>
+          r,   \* index (within the trace) of the request being validated
+          l,   \* next flow entry of the request to consume
+          fin  \* requests of the trace already validated
+tvars == <<vars, t, r, l, fin>>
 
 Rq(tt, rr) == Traces[tt].reqs[rr]
 Rec == Rq(t, r)
 SetOf(seq) == {seq[i] : i \in 1..Len(seq)}
 
+(* Which request may be taken next.  A sequential trace (one client) is    *)
+(* validated in the recorded order.  A concurrent trace carries for every  *)
+(* request the global sequence numbers of its start and end; any order     *)
+(* that respects real-time precedence (a request that ended before         *)
+(* another started comes first) may explain it - the specification of      *)
+(* serialisability (C18): TLC searches for a linearisation.                *)
+NReq(tt) == Len(Traces[tt].reqs)
+Candidates(tt, done) ==
+  IF Traces[tt].concurrent
+  THEN {k \in (1..NReq(tt)) \ done :
+          \A j \in (1..NReq(tt)) \ (done \cup {k}) : ~(Rq(tt, j).endSeq < Rq(tt, k).startSeq)}
+  ELSE {k \in (1..NReq(tt)) \ done : \A j \in 1..(k - 1) : j \in done}
+
 TraceInit ==
-  \E tt \in 1..Len(Traces) :
-    LET q == Rq(tt, 1) IN
-    /\ t = tt /\ r = 1 /\ l = 1
+  \E tt \in 1..Len(Traces) : \E r0 \in Candidates(tt, {}) :
+    LET q == Rq(tt, r0) IN
+    /\ t = tt /\ r = r0 /\ l = 1 /\ fin = {}
     /\ q.knowBefore => ~q.storedBefore          \* never a stored object on the first request
     /\ req = 1 /\ url = q.url /\ status = q.status
     /\ scope = "recv" /\ viaPass = FALSE /\ restarts = 0 /\ branch = "none" /\ didLookupHit = FALSE
     /\ attempt = "none"
-    /\ cache = [u \in Urls |-> "none"] /\ ttl0 = FALSE /\ uncache = FALSE /\ young = FALSE
+    /\ cache = [u \in Urls |-> "none"] /\ count = 0 /\ ttl0 = FALSE /\ uncache = FALSE /\ young = FALSE
     /\ pc = "run" /\ lastK = <<>> /\ defined = SetOf(q.defined)
     /\ cur = NewCur(q.url, q.status, [u \in Urls |-> "none"]) /\ hist = <<>>
 
@@ -60,12 +74,12 @@ TraceStep ==
   /\ \E b \in Beh(scope) :
        /\ Rec.exact => Rec.acts[l] = b
        /\ \E c1 \in AllowedCache(scope, b) : StepGen(b, TRUE, c1, "HASHPASS")
-  /\ l' = l + 1 /\ UNCHANGED <<t, r>>
+  /\ l' = l + 1 /\ UNCHANGED <<t, r, fin>>
 
 TraceSkip ==
   /\ pc = "run" /\ scope \notin defined
   /\ \E ar \in {"HASHPASS", "LOOKUP"} : \E c1 \in AllowedCache(scope, "none") : StepGen("none", FALSE, c1, ar)
-  /\ UNCHANGED <<t, r, l>>
+  /\ UNCHANGED <<t, r, l, fin>>
 
 \* the report of the finished request agrees with the state the specification reached
 ReportOK ==
@@ -78,10 +92,12 @@ ReqEndOK ==
        [] Rec.outcome = "error" -> pc = "err" \/ (~Rec.exact /\ pc = "run")  \* an unknown program may fail anywhere
        [] OTHER                 -> FALSE                                      \* a crash is never a behaviour
   /\ Rec.knowAfter => (Rec.storedAfter = (cache[url] = "fresh"))
+  /\ Rec.seen >= 0 => Rec.seen = cur.seen     \* rate counter value the request saw (generated programs)
 
 TraceNextReq ==
-  /\ ReqEndOK /\ r < Len(Traces[t].reqs)
-  /\ LET q == Rq(t, r + 1)
+  /\ ReqEndOK
+  /\ \E rn \in Candidates(t, fin \cup {r}) :
+     LET q == Rq(t, rn)
          \* an object may expire between requests of an unknown program's trace (real time passes)
          cs == {cache} \cup (IF ~q.exact /\ cache[q.url] = "fresh" THEN {[cache EXCEPT ![q.url] = "expired"]} ELSE {})
      IN
@@ -89,16 +105,17 @@ TraceNextReq ==
                       /\ q.knowBefore => (q.storedBefore = (c[q.url] = "fresh"))
                       /\ cur' = NewCur(q.url, q.status, c)
      /\ url' = q.url /\ status' = q.status /\ defined' = SetOf(q.defined)
-  /\ r' = r + 1 /\ l' = 1 /\ req' = req + 1
+     /\ r' = rn
+  /\ fin' = fin \cup {r} /\ l' = 1 /\ req' = req + 1
   /\ scope' = "recv" /\ viaPass' = FALSE /\ restarts' = 0 /\ branch' = "none" /\ didLookupHit' = FALSE
   /\ attempt' = "none" /\ ttl0' = FALSE /\ uncache' = FALSE /\ young' = FALSE /\ pc' = "run"
   /\ lastK' = <<>> /\ hist' = hist
-  /\ UNCHANGED t
+  /\ UNCHANGED <<t, count>>
 
 TraceNext == TraceStep \/ TraceSkip \/ TraceNextReq
 TraceSpec == TraceInit /\ [][TraceNext]_tvars
 
-Accepted == ReqEndOK /\ r = Len(Traces[t].reqs)
+Accepted == ReqEndOK /\ fin \cup {r} = 1..NReq(t)
 AcceptInv == Accepted => PrintT(<<"BEHAVIOUR", ToJson([accept |-> Traces[t].id])>>)
 
 \* requirement invariants of Lifecycle, evaluated at every step of every recorded execution
